@@ -79,7 +79,7 @@ fn main() {
             let spec = props::spec(&args[2]).unwrap_or_else(|| usage());
             let seed: u64 = std::env::var("VERIF_SEED").ok().and_then(|s| s.parse().ok()).unwrap_or(1);
             let idx: u64 = args[3].parse().unwrap();
-            let plan = props::gen_plan(spec, false, rng::derive(seed, idx));
+            let plan = props::gen_plan(spec, props::engine_for(spec, idx), false, rng::derive(seed, idx));
             let r = props::exec_plan(spec.engine, &plan, "show");
             for l in &r.trace {
                 println!("{}", l);
@@ -120,7 +120,7 @@ fn worker(prop: &str, tier: &str, seed: u64, start: u64, stride: u64, count: u64
         }
         let idx = start + k * stride;
         let run_seed = rng::derive(seed, idx);
-        let plan = props::gen_plan(spec, thorough, run_seed);
+        let plan = props::gen_plan(spec, props::engine_for(spec, idx), thorough, run_seed);
         let r = props::exec_plan(spec.engine, &plan, &format!("w{}", start));
         runs += 1;
         decisions += r.decisions;
